@@ -501,6 +501,7 @@ def oracles(lines):
             order_idx[0] += 1
         elif st["op"] in ("LS", "LB", "LN") and "bytes=" not in res and "ev=1" in res:
             st["ret"] = "unknown"   # unbounded dropping build: a macro without return value, outcome not observable here
+            st["enq"] = t_now       # if it was enqueued at all, it was now (C05 premise)
             unknown_outcomes[0] += 1
             live_logged.add(st["actor"])   # the reservation was attempted: the context exists
         elif st["op"] in ("LS", "LB", "LN") and res.endswith("bytes=0") and "ev=1" in res:
